@@ -10,7 +10,7 @@ META = {
     "explanation": "R19a Detector.__iter__/__len__/__getitem__ (and every override in the package) consume flatten(self.subsets) and "
                    "nothing else, so the three views agree for every nesting; R19b operand order of CombinedDetector.__add__/__radd__/"
                    "__iadd__ and Detector.__add__/__radd__ (so flattened content is the concatenation, hence associative); R19c flatten "
-                   "recursion forwards dont_flatten and keeps str/bytes whole; R19d the three antenna-level any-hit tests are one clone; "
+                   "recursion forwards dont_flatten and keeps str/bytes whole; R19d the three antenna-level any-hit tests are one clone; R19j (pointed) every return inside the loop over the union's members returns True; "
                    "R19e clear iterates self and forwards reset_noise; R19f the three position comparisons are `z > 0 -> raise` and the "
                    "test plus build mirroring run in every constructor and in +=; R19g keyword dispatch of build_antennas/triggered; "
                    "R19h MC-truth sibling agreement (shared with C09).",
@@ -168,7 +168,8 @@ def r19d(ctx):
         ctx.check(isinstance(last, ast.Return) and u(last.value) == "False" and len([r for r in returns(fn) if u(r.value) == "False"]) == 1, "R19d", f"{q}.{m}",
                   "False is returned only after every subset was examined", u(last), key_detail="final False")
     if n < 3:
-        raise AnalysisError(f"only {n} antenna-level any-hit tests found (3 on the pinned tree)")
+        ctx.unknown("R19d", f"{CD}.triggered", "three antenna-level any-hit tests (Detector, antenna list in a combination, single antenna in a combination)",
+                    f"only {n} found", required=True)
     fn = repo.member(D, "triggered")
     lp = [x for x in strip_doc(fn) if isinstance(x, ast.For)]
     ctx.check(len(lp) == 1 and u(lp[0].iter) == "self", "R19d", f"{D}.triggered", "the default trigger examines every antenna of the detector (iterates self)", "",
@@ -192,6 +193,35 @@ def r19d(ctx):
         ok = tests[:2] == ["hasattr(sub, 'triggered')", "isinstance(sub, Iterable)"] and (
             (len(tests) == 2 and bool(cur.orelse)) or (len(tests) == 3 and "sub.is_hit" in tests[2]))
     ctx.check(ok, "R19d", f"{CD}.triggered", "per subset: own triggered() if it has one, else its antennas, else the antenna itself", "", key_detail="subset kinds")
+
+
+def r19j(ctx):
+    """Pointed: a `return` inside the loop over the members of the union ends the examination at that member; the only value a union may leave early with
+    is True (one member triggered).  Read off the return statement itself, whatever else the function does."""
+    repo = ctx.repo
+    ctx.rule("R19j", "inside the loop over a detector's antennas / a combination's subsets every early `return` hands back True (a member that is not triggered "
+             "must not end the union)", expected=2, kind="N")
+    for q, it in ((D, "self"), (CD, "self.subsets")):
+        fn = repo.member(q, "triggered")
+        loops = [x for x in ast.walk(fn) if isinstance(x, ast.For) and u(x.iter) == it]
+        if not loops:
+            ctx.unknown("R19j", f"{q}.triggered", f"a loop over {it}", "none found (the union is spelt another way)", required=False)
+            continue
+        for lp in loops:
+            bad = []
+            for r in [n for n in ast.walk(lp) if isinstance(n, ast.Return)]:
+                v = r.value
+                if isinstance(v, ast.Constant) and v.value is True:
+                    continue
+                pr = parent(r)
+                if v is not None and isinstance(pr, ast.If) and r in pr.body and u(pr.test) == u(v):
+                    continue            # `if x: return x` hands back a true value
+                bad.append(r)
+            for r in bad:
+                ctx.bad("R19j", f"{q}.triggered", f"an early return inside the loop over {it} returns True", f"`{u(r)[:120]}` leaves the loop with a value that can be false: "
+                        "the members after this one are never examined", key_detail="early return in union loop", loc=ctx.loc(MOD, r), pointed=True)
+            if not bad:
+                ctx.ok("R19j", f"{q}.triggered", f"every early return inside the loop over {it} returns True", loc=ctx.loc(MOD, lp))
 
 
 def r19e(ctx):
@@ -320,6 +350,7 @@ def run(ctx):
     ctx.guard(r19b)
     ctx.guard(r19c)
     ctx.guard(r19d)
+    ctx.guard(r19j)
     ctx.guard(r19e)
     ctx.guard(r19f)
     ctx.guard(r19g)
@@ -328,6 +359,9 @@ def run(ctx):
 
 SELFTEST = {
     "faults": [
+        {"name": "subset trigger result returned as it is (a quiet first subset ends the union)", "file": "pyrex/detector.py",
+         "old": "                            if triggered:\n                                return True\n                            else:\n                                break\n",
+         "new": "                            return triggered\n", "rule": "R19j"},
         {"name": "keyword reset hoisted out of the subset loop", "file": "pyrex/detector.py",
          "edits": [{"file": "pyrex/detector.py", "old": "                    sub_kwargs = kwargs\n                    while True:", "new": "                    while True:"},
                    {"file": "pyrex/detector.py", "old": "        kwargs['require_mc_truth'] = require_mc_truth\n", "new": "        kwargs['require_mc_truth'] = require_mc_truth\n        sub_kwargs = kwargs\n"}],
